@@ -98,10 +98,12 @@ theorem setParam_inv {g : Graph V} (hinv : Inv F g) {p : Nat} {x : V} {n : Nat} 
   · intro k hk hr; exact bump_up hinv p _ hwf' hv hk hr
   · intro s hs; cases hs
   · intro s rv hs; cases hs
+  · intro s hs; cases hs
 
 /-- any change of the wiring of struct node `i` that raises the flag and keeps the graph acyclic -/
 theorem rewire_inv {g : Graph V} (hinv : Inv F g) {i : Nat} {s s' : SNode V} (hs : g i = .struct s)
-    (hflag : s'.flag = true) (hver : s'.version = s.version) (hac : Acyclic F (g.set i (.struct s'))) :
+    (hflag : s'.flag = true) (hver : s'.version = s.version) (hreads : s'.reads = s.reads)
+    (hac : Acyclic F (g.set i (.struct s'))) :
     Inv F (g.set i (.struct s')) := by
   obtain ⟨rank', hwf'⟩ := hac
   have hout : Outdated F (g.set i (.struct s')) i = true := by
@@ -115,6 +117,7 @@ theorem rewire_inv {g : Graph V} (hinv : Inv F g) {i : Nat} {s s' : SNode V} (hs
   · intro k _ hr; exact Outdated_of_reach hwf' hr hout
   · intro t _ ho; rw [hout] at ho; cases ho
   · intro t rv ht _ hf; cases ht; rw [hflag] at hf; cases hf
+  · intro t ht; cases ht; rw [hreads]; exact hinv.readsAll i s hs
 
 /-- the node an operation is addressed to -/
 def opNode : Op V → Nat
@@ -128,7 +131,7 @@ def opNode : Op V → Nat
 inductive StepKind (F : Nat) (g : Graph V) : Op V → Graph V × Log → Prop
   | setParam {p x n v} : g p = .param x n → StepKind F g (.setParam p v) (g.set p (.param v (n+1)), [])
   | rewire {op i s s'} : (∀ j, op ≠ .read j) → (∀ p v, op ≠ .setParam p v) → opNode op = i →
-      g i = .struct s → s'.flag = true → s'.version = s.version → s'.fn = s.fn →
+      g i = .struct s → s'.flag = true → s'.version = s.version → s'.fn = s.fn → s'.reads = s.reads →
       StepKind F g op (g.set i (.struct s'), [])
   | read {i} : StepKind F g (.read i) (Eval F g i)
   | rejected {op} : (∀ j, op ≠ .read j) → (∀ p v x n, op = .setParam p v → g p ≠ .param x n) →
@@ -151,7 +154,7 @@ theorem step_kind (F : Nat) (g : Graph V) (op : Op V) : StepKind F g op (step F 
       | none => exact .rejected (by intro j h; cases h) (by intro _ _ _ _ h; cases h)
       | some sc =>
         simp only [Option.map_some, Option.getD_some]
-        exact .rewire (by intro j h; cases h) (by intro p v h; cases h) rfl hi rfl rfl rfl
+        exact .rewire (by intro j h; cases h) (by intro p v h; cases h) rfl hi rfl rfl rfl rfl
   | arrayAdd i arr src =>
     simp only [step, step?]
     cases hi : g i with
@@ -162,7 +165,7 @@ theorem step_kind (F : Nat) (g : Graph V) (op : Op V) : StepKind F g op (step F 
       | none => exact .rejected (by intro j h; cases h) (by intro _ _ _ _ h; cases h)
       | some ar =>
         simp only [Option.map_some, Option.getD_some]
-        exact .rewire (by intro j h; cases h) (by intro p v h; cases h) rfl hi rfl rfl rfl
+        exact .rewire (by intro j h; cases h) (by intro p v h; cases h) rfl hi rfl rfl rfl rfl
   | arrayRemove i arr idx =>
     simp only [step, step?]
     cases hi : g i with
@@ -173,7 +176,7 @@ theorem step_kind (F : Nat) (g : Graph V) (op : Op V) : StepKind F g op (step F 
       | none => exact .rejected (by intro j h; cases h) (by intro _ _ _ _ h; cases h)
       | some ar =>
         simp only [Option.map_some, Option.getD_some]
-        exact .rewire (by intro j h; cases h) (by intro p v h; cases h) rfl hi rfl rfl rfl
+        exact .rewire (by intro j h; cases h) (by intro p v h; cases h) rfl hi rfl rfl rfl rfl
   | read i => exact .read
 
 /-- one API call preserves the invariant as long as the graph stays acyclic -/
@@ -183,7 +186,7 @@ theorem step_inv {g : Graph V} (hinv : Inv F g) (op : Op V) (hac : Acyclic F (st
   generalize step F g op = r at h hac
   cases h with
   | setParam hp => exact setParam_inv hinv hp _
-  | rewire _ _ _ hs hf hv _ => exact rewire_inv hinv hs hf hv hac
+  | rewire _ _ _ hs hf hv _ hr => exact rewire_inv hinv hs hf hv hr hac
   | read => exact (Eval_ok _ g hinv).inv
   | rejected => exact hinv
 
@@ -195,9 +198,9 @@ theorem run_inv {g : Graph V} (hinv : Inv F g) (ops : List (Op V)) (hv : Valid F
 /-- the state before any evaluation: acyclic, and no struct node has been processed -/
 def Init (F : Nat) (g : Graph V) : Prop := Acyclic F g ∧ ∀ i s, g i = .struct s → s.remembered = none
 
-theorem Init.inv {g : Graph V} (h : Init F g) : Inv F g := by
+theorem Init.inv {g : Graph V} (h : Init F g) (hra : ReadsAll g) : Inv F g := by
   obtain ⟨rank, hwf⟩ := h.1
-  refine ⟨h.1, ?_, ?_⟩
+  refine ⟨h.1, hra, ?_, ?_⟩
   · intro i s hs ho
     rw [Outdated_eq g hwf, hs] at ho
     simp [h.2 i s hs] at ho
@@ -340,7 +343,7 @@ theorem version_step {g : Graph V} (hinv : Inv F g) (op : Op V) (k : Nat) :
     · subst hk; simp [bumps, cnt, ver, hp, isParam]
     · have : ¬ p = k := fun h => hk h.symm
       simp [bumps, cnt, ver_set_ne g _ hk, this]
-  | @rewire op i s s' hnr hnp _ hs _ hv _ =>
+  | @rewire op i s s' hnr hnp _ hs _ hv _ _ =>
     have hb : bumps g op k = 0 := by
       cases op with
       | setParam p v => exact absurd rfl (hnp p v)
@@ -378,7 +381,7 @@ theorem step_isParam (g : Graph V) (op : Op V) (k : Nat) :
     by_cases hk : k = p
     · subst hk; simp [isParam, hp]
     · simp [Graph.set_ne g _ hk]
-  | @rewire op i s s' _ _ _ hs _ _ _ =>
+  | @rewire op i s s' _ _ _ hs _ _ _ _ =>
     by_cases hk : k = i
     · subst hk; simp [isParam, hs]
     · simp [Graph.set_ne g _ hk]
@@ -460,7 +463,7 @@ theorem untouched_step {g : Graph V} (hinv : Inv F g) {j : Nat} (hj : Outdated F
       intro hkp; subst hkp; exact hnr hk
   cases h with
   | @setParam p x n v hp => exact ⟨hset p _ (by simpa [touches, opNode] using hq), by simp [cnt]⟩
-  | @rewire op i s s' hnr hnp hi _ _ _ _ =>
+  | @rewire op i s s' hnr hnp hi _ _ _ _ _ =>
     refine ⟨hset i _ ?_, by simp [cnt]⟩
     cases op with
     | read j' => exact absurd rfl (hnr j')
